@@ -147,7 +147,7 @@ Proof. exact lookup_digit_alias. Qed.
 (* ---- lookup, in general -----------------------------------------------------------
    Every (port, address) the walk reports is found by apropos - any depth, '#N'
    at any level, leaf names with several '#'.  Side conditions: names of the
-   documented shape ([lok]: sub-tree ports one component "text/" / "text#N/",
+   documented shape ([lok]: sub-tree ports one or more components "text/" / "text#N/",
    7-bit literal text without : { * #, no two '#N' adjacent, a leaf name starts
    with a literal character other than '/' and does not end in '/'), and
    [lookup_disjoint]: no path is answered by two ports of one table, where a
@@ -168,19 +168,36 @@ Theorem C18_lookup_nonvacuous : Forall lok ex_d /\ lookup_disjoint ex_d /\
   apropos (map render_port ex_d) [47; 97; 49; 49; 47; 99; 49; 47; 120] = AFound [0%nat; 0%nat].
 Proof. exact ex_d_lok. Qed.
 
-(* The lookup clause with a DECIDABLE hypothesis: names_ok root = true
-   (coq/Ports/NamesModel.v; evaluated on every generated tree by the tie) -
-   names of the documented shape, literal text without digits, and no key of a
-   port - its path part with each '#N' replaced by '#' - a prefix of a sibling's
-   key: "no sibling's name is a prefix of another's".  lok / lookup_disjoint
-   follow (C09_names_ok_sound).  The digit-alias witness above is exactly what
-   "literal text without digits" excludes. *)
-Theorem C18_lookup : forall root id a ty,
+(* The lookup clause with a DECIDABLE hypothesis and nothing else: names_ok root
+   = true (coq/Ports/NamesModel.v; evaluated on every generated tree by the
+   tie) - names of the documented shape (sub-tree names of one or more
+   components; literal text may hold digits) and no two ports of a table
+   CLASH (NamesModel.clashb): reading both path parts in step - literal
+   characters must agree, '#N' against '#M' goes on behind both - one name ends
+   (x / xy: "a sibling's name is a prefix of another's") or a '#N' meets a
+   literal digit.  lok / lookup_disjoint follow (C09_names_ok_sound).  The
+   digit-alias witness above is such a clash ('#4' against the literal 0 of
+   a01b).  No hypothesis about type strings: apropos
+   does not look at them (every reported leaf admits some type string,
+   names_ok_leaf_admits). *)
+Theorem C18_lookup : forall root id a,
   names_ok root = true ->
   forall out b, walk None (map render_port root) [] = WOk out b ->
-  In (id, a) out -> leaf_admits root id ty ->
+  In (id, a) out ->
   apropos (map render_port root) a = AFound id.
 Proof. exact walk_lookup_names. Qed.
+
+(* names_ok with digits in literal text: { "osc1a", "osc2a", "v2#3/x7:i", "p10/q/" -> { "b2", "c" } }
+   is accepted and its walked addresses are found; { "a1", "a12" } is rejected (a prefix) *)
+Theorem C18_lookup_digits_nonvacuous :
+  names_ok ex_digits = true /\
+  names_ok [SPort [Lit [97; 49]] [] None None; SPort [Lit [97; 49; 50]] [] None None] = false /\
+  (exists out b, walk None (map render_port ex_digits) [] = WOk out b /\ length out = 7%nat /\
+                 In ([2%nat], [47; 118; 50; 50; 47; 120; 55]) out /\
+                 In ([3%nat; 0%nat], [47; 112; 49; 48; 47; 113; 47; 98; 50]) out) /\
+  apropos (map render_port ex_digits) [47; 118; 50; 50; 47; 120; 55] = AFound [2%nat] /\
+  apropos (map render_port ex_digits) [47; 112; 49; 48; 47; 113; 47; 98; 50] = AFound [3%nat; 0%nat].
+Proof. exact ex_digits_ok. Qed.
 
 (* observation, outside the quantifier (names are non-empty): an empty port name
    makes the unique-prefix pass read one byte before the name *)
